@@ -32,7 +32,7 @@ class Check:
     labels: tuple = ()         # cover labels that must be witnessed somewhere (vacuity guard)
     timeout: float = 600.0     # per case, seconds
     split_depth: int | None = None  # decision depth at which a case is split over workers
-    path_timeout: float = 120.0  # wall-clock budget of one path (non-termination guard)
+    path_timeout: float = 600.0  # wall-clock budget of one path (non-termination guard)
     validate_every: int = 1    # validate every k-th path on the real stack
     bounds: dict | None = None
     outside: tuple = ()
@@ -87,7 +87,7 @@ class _RealTimeout(BaseException):
     pass
 
 
-REAL_TIMEOUT = 60
+REAL_TIMEOUT = 300   # generous: a slow machine must never look like a hang
 
 
 def _real_obs(check, params, inputs):
@@ -104,7 +104,7 @@ def _real_obs(check, params, inputs):
     try:
         return "ok", _norm(check.real(params, inputs))
     except _RealTimeout:
-        return "oracle", f"the operation did not terminate within {REAL_TIMEOUT}s on the real stack"
+        return "timeout", f"the operation did not terminate within {REAL_TIMEOUT}s on the real stack"
     except OracleFailure as ex:
         return "oracle", str(ex)[:500]
     except Exception as ex:  # noqa
@@ -122,6 +122,12 @@ def run_job(job):
     sys.path.insert(0, VERIF) if VERIF not in sys.path else None
     import warnings
     warnings.simplefilter("ignore")
+    try:  # a worker must not outlive the driver (an orphan stuck in a mutated loop once ran for hours)
+        import ctypes
+        import signal
+        ctypes.CDLL("libc.so.6", use_errno=True).prctl(1, signal.SIGKILL)
+    except Exception:  # noqa
+        pass
     t0 = time.time()
     out = dict(check=cname, params=params, prefix=prefix is not None, status="ok", violations=[], samples=[],
                validated=0, divergences=[], labels={}, stats={}, wall_s=0.0, functions=[], nontrivial=0,
@@ -162,6 +168,11 @@ def run_job(job):
                 out["divergences"].append(dict(inputs=inputs, why=f"cannot evaluate symbolic observable: {ex}"))
                 return
             kind, robs = _real_obs(check, params, inputs)
+            if kind == "timeout":
+                # the symbolic run of this path returned, so this is a slow machine, not a hang: inconclusive, never a violation
+                if len(out["divergences"]) < 5:
+                    out["divergences"].append(dict(inputs=inputs, why="real-stack validation run timed out: " + robs))
+                return
             if kind == "oracle":
                 CTX.violations.append(dict(msg="real stack: " + robs, inputs=inputs, notes=[], path=[], confirmed=True))
                 return
@@ -196,8 +207,8 @@ def run_job(job):
                 v["confirmed"] = True
             elif kind == "raises" and v["msg"].startswith("unexpected") and robs.split(":")[0] in v["msg"]:
                 v["confirmed"] = True
-            elif kind == "oracle" and "did not terminate" in robs:
-                v["confirmed"] = True
+            elif kind == "timeout" and v["msg"].startswith("non-termination"):
+                v["confirmed"] = True   # the symbolic path did not return either: a genuine non-termination candidate
             else:
                 v["confirmed"] = False
             out["violations"].append(v)
@@ -385,6 +396,8 @@ def finish(prop, mod, checks, results, tier, seed, t0, args):
                 finally:
                     _IGNORE_KNOWN = False
                 still = kind in ("oracle",) or (kind == "raises" and e.get("raises") and robs.startswith(e["raises"]))
+                if kind == "timeout":
+                    problems.append(f"known finding {e['key']}: witness replay timed out")
             except Exception as ex:  # noqa
                 problems.append(f"known finding {e['key']}: witness could not be replayed: {ex}")
         if still:
@@ -494,7 +507,8 @@ def do_replay(prop, mod, path):
     print(f"replay {path}: check={r['check']} params={r['params']} inputs={r['inputs']}")
     print(f"  recorded: {r.get('message')}")
     print(f"  real stack now: {kind}: {robs}")
-    if kind == "oracle" or (kind == "raises" and str(r.get("message", "")).startswith("unexpected")):
+    if kind == "oracle" or (kind == "timeout" and str(r.get("message", "")).startswith("non-termination")) \
+            or (kind == "raises" and str(r.get("message", "")).startswith("unexpected")):
         print(f"VIOLATION property={prop} replay={path}")
         return EXIT_VIOLATION
     return EXIT_OK
